@@ -197,10 +197,17 @@ type Node struct {
 	// DefaultPlanner keeps the engine's own compaction planner (background compactions may run).
 	DefaultPlanner bool
 
-	snap     *tsm1.Cache
-	snapSegs []string
-	names    map[string]UnitSt // real "generation-sequence" -> the model's, from the last CheckLayout
+	snaps map[uint64]*inflight
+	names map[string]UnitSt // real "generation-sequence" -> the model's, from the last CheckLayout
 }
+
+type inflight struct {
+	snap *tsm1.Cache
+	segs []string
+}
+
+// SnapInFlight reports whether SnapBegin was called for the shard without SnapEnd.
+func (n *Node) SnapInFlight(id uint64) bool { return n.snaps[id] != nil }
 
 // ModelName translates the generation and sequence of a real file into the model's numbering.
 func (n *Node) ModelName(g, s int) (int, int) {
@@ -274,13 +281,31 @@ func (n *Node) Write(id uint64, p, v int) error {
 	return n.Store.WriteToShard(id, []models.Point{pt})
 }
 
+// Wake re-enables the shard's compactions.  Store.monitorShards disables them (cache snapshots included)
+// on every shard it finds idle at its 10 s tick and enables them again at the next tick after data
+// arrived; a harness step that needs a snapshot in between does what that next tick would do.
+func (n *Node) Wake(id uint64) {
+	if sh := n.Store.Shard(id); sh != nil {
+		sh.SetCompactionsEnabled(true)
+	}
+}
+
+func disabledErr(err error) bool {
+	return err != nil && (strings.Contains(err.Error(), "disabled") || strings.Contains(err.Error(), "aborted"))
+}
+
 // Snapshot runs the engine's WriteSnapshot from start to end.
 func (n *Node) Snapshot(id uint64) error {
 	_, e, err := n.engine(id)
 	if err != nil {
 		return err
 	}
-	return e.WriteSnapshot()
+	for try := 0; ; try++ {
+		n.Wake(id)
+		if err = e.WriteSnapshot(); !disabledErr(err) || try == 3 {
+			return err
+		}
+	}
 }
 
 // SnapBegin performs the first half of Engine.WriteSnapshot (close the WAL segment, Cache.Snapshot) with the
@@ -291,19 +316,26 @@ func (n *Node) SnapBegin(id uint64) error {
 	if err != nil {
 		return err
 	}
-	if n.snap != nil {
+	if n.snaps[id] != nil {
 		return fmt.Errorf("a snapshot is already in flight")
 	}
+	fl := &inflight{}
 	if e.WALEnabled {
 		if err := e.WAL.CloseSegment(); err != nil {
 			return err
 		}
-		if n.snapSegs, err = e.WAL.ClosedSegments(); err != nil {
+		if fl.segs, err = e.WAL.ClosedSegments(); err != nil {
 			return err
 		}
 	}
-	n.snap, err = e.Cache.Snapshot()
-	return err
+	if fl.snap, err = e.Cache.Snapshot(); err != nil {
+		return err
+	}
+	if n.snaps == nil {
+		n.snaps = map[uint64]*inflight{}
+	}
+	n.snaps[id] = fl
+	return nil
 }
 
 // SnapEnd performs the second half (Engine.writeSnapshotAndCommit) with the same exported calls.
@@ -312,13 +344,20 @@ func (n *Node) SnapEnd(id uint64) error {
 	if err != nil {
 		return err
 	}
-	if n.snap == nil {
+	fl := n.snaps[id]
+	if fl == nil {
 		return fmt.Errorf("no snapshot in flight")
 	}
-	snap := n.snap
-	n.snap = nil
+	delete(n.snaps, id)
+	snap := fl.snap
 	snap.Deduplicate()
-	files, err := e.Compactor.WriteSnapshot(snap)
+	var files []string
+	for try := 0; ; try++ {
+		n.Wake(id)
+		if files, err = e.Compactor.WriteSnapshot(snap); !disabledErr(err) || try == 3 {
+			break
+		}
+	}
 	if err != nil {
 		e.Cache.ClearSnapshot(false)
 		return err
@@ -329,7 +368,7 @@ func (n *Node) SnapEnd(id uint64) error {
 	}
 	e.Cache.ClearSnapshot(true)
 	if e.WALEnabled {
-		return e.WAL.Remove(n.snapSegs)
+		return e.WAL.Remove(fl.segs)
 	}
 	return nil
 }
@@ -382,8 +421,13 @@ func (n *Node) Compact(id uint64) error {
 	if len(paths) == 0 {
 		return nil
 	}
-	e.Compactor.EnableCompactions()
-	out, err := e.Compactor.CompactFull(paths)
+	var out []string
+	for try := 0; ; try++ {
+		e.Compactor.EnableCompactions()
+		if out, err = e.Compactor.CompactFull(paths); !disabledErr(err) || try == 3 {
+			break
+		}
+	}
 	if err != nil {
 		return err
 	}
